@@ -38,10 +38,18 @@
    prev of the first item is 0, _size is the length                -> cell_lists_well_formed
    free list (through prev), block list, bucket array and chains   -> cell_pools_and_chains
    the cell machine's observations pass the reference checker      -> cell_machine_satisfies_spec
-   Map / MultiMap: rotations as parent / left / right rewrites     -> see the section at the end *)
+   Map / MultiMap (Map.hpp:470-540): rotr, rotl, shiftr, shiftl and
+   rebal as rewrites of the parent / left / right / height / slope
+   fields of a heap of tree cells implement the rotations of the
+   node-level AVL model on the subtree they are applied to, leave
+   every other cell alone and write no object field                -> tree_rotr_relinks, tree_rotl_relinks,
+                                                                     tree_rebal_relinks, tree_rebal_moves_no_object
+   (insert / remove of Map / MultiMap, i.e. the descent, the two-child removal and the walk up the
+   parent chain, exist only in the node-level model; see level_note of checks/C05.py) *)
 From Coq Require Import ZArith List Bool Arith.
 From Stable Require Import Gen_Stable StableSpec StableModel StableTree StableInv StableProofs StableTheorems StableRefine StableBlocks.
 From Stable Require Import StableHeap StableHeapBase StableHeapSeg StableHeapRep StableHeapStep StableHeapSeq StableHeapHash StableHeapMain.
+From Stable Require Import StableHeapTree StableHeapTreeProofs.
 Import ListNotations.
 Local Open Scope Z_scope.
 
@@ -277,3 +285,57 @@ Example payload_move_is_expressible :
   option_map o_id (c_obj (hget H (0, 2)%nat)) = Some 1%nat /\ option_map o_id (c_obj (hget H' (0, 3)%nat)) = Some 1%nat /\
   c_obj (hget H' (0, 2)%nat) = None.
 Proof. vm_compute. auto. Qed.
+
+(* ==== Map / MultiMap: the rotations on a heap of tree cells ============================================ *)
+Theorem tree_rotr_relinks : forall st cell a n1 h1 b n2 h2 c par,
+  let t := Node (Node a n1 h1 b) n2 h2 c in
+  NoDup (slots (inorder t)) -> trep_kids (th st) t (rd_tcref st cell) par ->
+  (forall q, owner cell = Some q -> ~ In q (slots (inorder t))) ->
+  trep (th (t_rotr st cell)) (rotr t) (rd_tcref (t_rotr st cell) cell) par /\ rot_frame st (t_rotr st cell) cell t.
+Proof. exact rotr_refines. Qed.
+Print Assumptions tree_rotr_relinks.
+
+Theorem tree_rotl_relinks : forall st cell a n1 h1 b n2 h2 c par,
+  let t := Node c n2 h2 (Node b n1 h1 a) in
+  NoDup (slots (inorder t)) -> trep_kids (th st) t (rd_tcref st cell) par ->
+  (forall q, owner cell = Some q -> ~ In q (slots (inorder t))) ->
+  trep (th (t_rotl st cell)) (rotl t) (rd_tcref (t_rotl st cell) cell) par /\ rot_frame st (t_rotl st cell) cell t.
+Proof. exact rotl_refines. Qed.
+Print Assumptions tree_rotl_relinks.
+
+Theorem tree_rebal_relinks : forall st item t par,
+  NoDup (slots (inorder t)) -> trep (th st) t (Some item) par ->
+  rd_tcref st (cref_of (th st) item) = Some item ->
+  (forall q, owner (cref_of (th st) item) = Some q -> ~ In q (slots (inorder t))) ->
+  let cell := cref_of (th st) item in
+  trep (th (t_rebal st item)) (rebal t) (rd_tcref (t_rebal st item) cell) par /\ rot_frame st (t_rebal st item) cell t.
+Proof. exact rebal_refines. Qed.
+Print Assumptions tree_rebal_relinks.
+
+Theorem tree_rebal_moves_no_object : forall st item t par x,
+  NoDup (slots (inorder t)) -> trep (th st) t (Some item) par ->
+  rd_tcref st (cref_of (th st) item) = Some item ->
+  (forall q, owner (cref_of (th st) item) = Some q -> ~ In q (slots (inorder t))) ->
+  t_obj (tget (th (t_rebal st item)) x) = t_obj (tget (th st) x).
+Proof. exact rebal_moves_no_object. Qed.
+Print Assumptions tree_rebal_moves_no_object.
+
+(* non-vacuity: the left chain 3 <- 2 <- 1 (slope 2 at the top) hanging in the root pointer; rebal rotates
+   right: item (0,1) becomes the root, (0,2) its right child, parent fields and heights rewritten *)
+Definition tc (id : nat) (key : Z) (par l r : option slot) (h : nat) (sl : Z) : tcell := mkT (Some (mkObj id key 0)) par l r h sl.
+Definition th3 : theap :=
+  [((0, 2)%nat, tc 0 3 None (Some (0, 1)%nat) None 3 2);
+   ((0, 1)%nat, tc 1 2 (Some (0, 2)%nat) (Some (0, 0)%nat) None 2 1);
+   ((0, 0)%nat, tc 2 1 (Some (0, 1)%nat) None None 1 0)].
+Definition t3 : tree :=
+  Node (Node (Node Leaf (mkNode 2 (0, 0)%nat 1 0) 1 Leaf) (mkNode 1 (0, 1)%nat 2 0) 2 Leaf) (mkNode 0 (0, 2)%nat 3 0) 3 Leaf.
+Example tree_rep_nonvacuous : trep th3 t3 (Some (0, 2)%nat) None /\ NoDup (slots (inorder t3)).
+Proof. split; [cbn; auto 20|]. repeat constructor; cbn; intuition discriminate. Qed.
+Example tree_rebal_nonvacuous :
+  let st' := t_rebal (mkTS th3 (Some (0, 2)%nat)) (0, 2)%nat in
+  troot st' = Some (0, 1)%nat /\ t_parent (tget (th st') (0, 1)%nat) = None /\
+  t_left (tget (th st') (0, 1)%nat) = Some (0, 0)%nat /\ t_right (tget (th st') (0, 1)%nat) = Some (0, 2)%nat /\
+  t_parent (tget (th st') (0, 2)%nat) = Some (0, 1)%nat /\ t_left (tget (th st') (0, 2)%nat) = None /\
+  t_height (tget (th st') (0, 1)%nat) = 2%nat /\ t_height (tget (th st') (0, 2)%nat) = 1%nat /\
+  option_map o_id (t_obj (tget (th st') (0, 2)%nat)) = Some 0%nat.
+Proof. vm_compute. auto 10. Qed.
